@@ -112,6 +112,32 @@ RPT = T("GoRollingBucketsP", [
     ("tie_slot_clear", "CM.GoTie.GoRP.go_clear_eq", "`clear` = `DSlot.clear`"),
     ("tie_slot_Durations", "CM.GoTie.GoRP.go_Durations_eq", "`Durations` = `DSlot.durations`: the first min(count, size) cells")])
 
+# ---- K6: interference ties (CircuitProofs/GoTie/I_*): the bodies translated over primitives in which an arbitrary move of the
+# other goroutines precedes every atomic / lock operation take exactly the steps of the small-step model's thread
+K6_CORE = [(("tie_k6_thread_view", "CM.GoTie.ICore.thread_view", "every schedule of any system, seen from one thread, is a run of that thread alone against SOME oracle: what is proved for every oracle covers every schedule"), "I_Core")]
+K6_RC = [((a, "CM.GoTie.IRC." + t, d), "I_RC") for a, t, d in [
+    ("tie_k6_Inc", "inc_solo", "today's `Inc` (with `Advance` and `clearBucket` inlined as translated), every atomic preceded by an arbitrary move of the others, takes exactly the steps of the model's thread: same shared state, same oracle left, same atomic operations with the same observed values"),
+    ("tie_k6_RollingSumAt", "sumAt_solo", "`RollingSumAt` likewise; its answer is the value its last load observed"),
+    ("tie_k6_GetBuckets", "getBuckets_solo", "`GetBuckets` likewise; its answer is what its last NumBuckets loads observed"),
+    ("tie_k6_Reset", "reset_solo", "`Reset` likewise"),
+    ("tie_k6_Inc_outcomes", "inc_ok_or_fuel", "the translated `Inc` never panics: it returns, or exhausts the bound on Advance's self-calls"),
+    ("tie_k6_Inc_terminates", "inc_enough_fuel", "a bound that exceeds the oracle's length by 3 is always enough: every self-call of Advance follows a CompareAndSwap the others interfered with")]]
+K6_TC = [((a, "CM.GoTie.ITC." + t, d), "I_TC") for a, t, d in [
+    ("tie_k6_Check", "check_solo", "today's `Check`, every atomic AND every RWMutex operation preceded by an arbitrary move of the others (under the rely condition the lock discipline provides), takes exactly the steps of the model's thread — same answer, or waiting before the same lock"),
+    ("tie_k6_SleepStart", "sleepStart_solo", "`SleepStart` likewise"),
+    ("tie_k6_callback", "callback_solo", "the timer callback likewise"),
+    ("tie_k6_arming", "reset_arms_current_version", "the closure handed to the timer hook captures the version `resetOpenTimeWithLock` has just published")]]
+K6_TRANS = [((a, "CM.GoTie.ICall." + t, d), "I_Call") for a, t, d in [
+    ("tie_k6_openCircuit", "openCircuit_solo", "today's `openCircuit`, every flag load / store, mutex operation and notification preceded by an arbitrary move of the others, takes exactly the steps of the model's thread (or waits before the mutex)"),
+    ("tie_k6_close", "close_solo", "`close` likewise"),
+    ("tie_k6_embeds", "call_embeds_trans", "inside a transition the whole-call model IS the transition model the all-schedule theorems are about")]]
+K6_CALL = [((a, "CM.GoTie.ICall." + t, d), "I_Call") for a, t, d in [
+    ("tie_k6_allowNewRun", "allowNewRun_solo", "today's `allowNewRun` (with `IsOpen` inlined as translated) takes exactly the admission steps of the model's thread: true ⇔ it goes on to the opener's veto, false ⇔ it sheds"),
+    ("tie_k6_checkSuccess", "checkSuccess_solo", "`checkSuccess` takes the model's steps after a successful run (incl. the closing transition)"),
+    ("tie_k6_checkErrFailure", "checkErrFailure_solo", "`checkErrFailure` takes the model's steps after a failed run (incl. `attemptToOpen` and the opening transition)"),
+    ("tie_k6_checkErrFailure_nil", "checkErrFailure_nil", "… and does nothing for a nil error"),
+    ("tie_k6_attemptToOpen", "attemptToOpen_solo", "`attemptToOpen` likewise")]]
+
 PROPS = {
     "C01": ("load shedding: who is admitted is decided by `allowNewRun` / `run`",
             [C("IsOpen"), C("allowNewRun"), RUN] + NEVER),
@@ -151,6 +177,7 @@ PROPS = {
     "C12": ("every timestamp is a reading of the configured clock: all translated functions of circuit.go",
             [C("now"), C("OpenCircuit"), C("CloseCircuit"), RUN, FALLBACK] + ALL),
     "C13": ("the rolling counter: rolling_bucket.go's `Advance` and rolling_counter.go's methods are the model `RC`", ROLL),
+    "C14": ("the counter under interference: every atomic step of rolling_counter.go / rolling_bucket.go is the small-step model's", K6_RC + K6_CORE),
     "C15": ("rolling_percentile.go: the ring of circular buffers is the model `RP` / `DSlot`, the snapshot's numbers are the model `SD`", RPT + SD),
     "C16": ("the gate: timedcheck.go's method bodies are the model `TC`", TC),
     "C17": ("the registry: manager.go's CreateCircuit / GetCircuit / MustCreateCircuit are the model `Mgr`", MGR),
@@ -178,6 +205,7 @@ UNITS = {"F_": "gocircuit", "All": "gocircuit", "T_GoHOpener": "gohopener", "T_G
          "T_GoFanRun": "gofanrun", "T_GoFanFb": "gofanfb", "T_GoFanCirc": "gofancirc", "T_GoSetCfg": "gosetcfg", "T_GoStream": "gostream", "T_GoRollingBuckets": "gorollingbuckets", "T_GoRollingCounter": "gorollingcounter",
          "T_GoManager": "gomanager", "T_GoSortedDurations": "gosorteddurations", "T_GoRollingBucketsP": "gorollingbucketsp",
          "T_GoRollingPercentile": "gorollingpercentile", "T_GoDurationsBucket": "godurationsbucket",
+         "I_Core": [], "I_RC": ["gorciclear", "gorciadv", "gorciops"], "I_TC": "gotci", "I_Call": "gocalli",
          "T_GoLiveLogic": ["goneveropens", "gonevercloses", "gohopenercfg", "gohclosercfg", "goslocfg"]}
 
 def units_of(prop):
